@@ -1,4 +1,5 @@
 pub mod c02;
+pub mod c03;
 pub mod c07;
 pub mod c09;
 pub mod c10;
@@ -15,6 +16,7 @@ use crate::runner::Check;
 pub fn all() -> Vec<Box<dyn Check>> {
     vec![
         Box::new(c02::C02),
+        Box::new(c03::C03),
         Box::new(c07::C07),
         Box::new(c09::C09),
         Box::new(c10::C10),
